@@ -514,6 +514,8 @@ class FortranExtracted(Extracted):
                 src = n.func.value
                 if isinstance(src, ast.Name) and isinstance(consts.get(src.id), ast.Call):
                     src = consts[src.id]
+                elif isinstance(src, ast.Attribute) and isinstance(src.value, ast.Name) and src.value.id in ("self", "cls", self.cls.name) and isinstance(self.cls.class_attrs.get(src.attr), ast.Call):
+                    src = self.cls.class_attrs[src.attr]  # a pattern compiled once at class level
                 cand = None
                 if isinstance(src, ast.Call) and u(src.func) in ("re.compile",) and src.args and isinstance(src.args[0], ast.Constant):
                     cand = (src.args[0].value, [u(k.value) for k in src.keywords] + [u(a) for a in src.args[1:]])
